@@ -209,7 +209,8 @@ class C12(Check):
                    "written by hand), constructor vs incremental add_*, list/comma/space declarations and all orderings.  Every variant's "
                    "get_ode_eqn (sympy->SMT), ode and jacobian evaluators are proved equal to ONE oracle for all (x,t,theta) -- hence equal to "
                    "each other -- and the rate vector equal up to the ordering of events.  The vector-state range declaration ('y1:4') is "
-                   "covered by C01's vector_states member.")
+                   "covered by C01's vector_states member.  One unit builds TWO models from the same Event/Transition objects (derived parameter of the same "
+                   "name defined differently; first model evaluated first): each must be the model of its own definition.")
     assumptions = ["legacy transition=/birth_death= routes carry magnitude 1 (the legacy converters rebuild the Transition without it); non-unit magnitudes (2, symbolic g, 3) are checked on every route that carries a magnitude: Event objects, rate-carrying Transitions given to event=/add_event, hand-written ODE terms", "lambdify back-end"]
 
     def units(self, tier, seed):
